@@ -1,7 +1,16 @@
 -- GENERATED: axiom audit of the property theorems of C47
 import SquidModel.Properties.C47
 #print axioms SquidModel.C47.split_channel_id_counterexample
+#print axioms SquidModel.C47.split_channel_id_drop_counterexample
 #print axioms SquidModel.C47.split_channel_id_repaired_witness
 #print axioms SquidModel.C47.unterminated_id_assert_counterexample
 #print axioms SquidModel.C47.nul_assert_counterexample
 #print axioms SquidModel.C47.channel_id_truncation_counterexample
+#print axioms SquidModel.C47.two_reads_or_one
+#print axioms SquidModel.C47.any_fragmentation_same_result
+#print axioms SquidModel.C47.reply_to_own_channel_partial
+#print axioms SquidModel.C47.unknown_channel_never_applied
+#print axioms SquidModel.C47.pop_never_on_partial_id
+#print axioms SquidModel.C47.repaired_never_aborts
+#print axioms SquidModel.C47.fifo_when_not_concurrent
+#print axioms SquidModel.C47.fifo_example
